@@ -69,19 +69,18 @@ def new_error_effect(level):
 def contracts():
     out = []
     c = Contract(P + "peek_token", setup=ctx_setup({"pos": "int"}), result=opt_tok)
-    c.rais("IndexError", when="pos < -ntok(self)")
-    c.ens("isnone(result) == (pos >= ntok(self))", "none_iff_past_end")
-    c.ens("implies(pos < ntok(self), is_tok(self, result, wrap(self, pos)))", "is_token_at_pos")
-    c.mustfail("isnone(result) == (pos > ntok(self))", "off_by_one")
+    c.ens("isnone(result) == (pos >= ntok(self) or pos < -ntok(self))", "none_iff_outside")
+    c.ens("implies(pos < ntok(self) and pos >= -ntok(self), is_tok(self, result, wrap(self, pos)))", "is_token_at_pos")
+    c.mustfail("isnone(result) == (pos > ntok(self) or pos < -ntok(self))", "off_by_one")
     out.append(c)
 
     for variant, vty in (("str", "kind"), ("list", kindset)):
         c = Contract(P + "check_token", setup=ctx_setup({"pos": "int", "value": vty}), result="optbool")
         c.variant = variant
-        c.rais("IndexError", when="pos < -ntok(self)")
-        c.ens("isnone(result) == (pos >= ntok(self))", "none_iff_past_end")
-        c.ens("implies(pos < ntok(self), result == kind_in(self, wrap(self, pos), value))", "membership")
-        c.mustfail("implies(pos < ntok(self), result == True)", "always_true")
+        c.ens("isnone(result) == (pos >= ntok(self) or pos < -ntok(self))", "none_iff_outside")
+        c.ens("implies(pos < ntok(self) and pos >= -ntok(self), result == kind_in(self, wrap(self, pos), value))",
+              "membership")
+        c.mustfail("implies(pos < ntok(self) and pos >= -ntok(self), result == True)", "always_true")
         out.append(c)
 
     c = Contract(P + "eol", setup=ctx_setup({"pos": "nat"}), result="int")
@@ -123,3 +122,18 @@ def contracts():
 def install(E):
     E.spec_builtins["kind_in"] = Builtin("kind_in", sp_kind_in)
     E.spec_builtins["in_ws"] = Builtin("in_ws", sp_in_ws)
+
+
+def skip_nest_contract():
+    """skip_nest(pos): index of the bracket that closes the one at pos (or pos itself when
+    the token at pos is not an opening bracket); CParsingError when it is never closed or
+    when pos is past the end of the token list"""
+    c = Contract(P + "skip_nest", setup=ctx_setup({"pos": "nat"}), result="int")
+    c.req("pos >= 0")
+    c.rais("CParsingError")
+    c.ens("result >= pos and result < ntok(self)", "monotone_and_in_bounds")
+    c.ens("implies(not kind_in(self, pos, ('LBRACKET', 'LBRACE', 'LPARENTHESIS')), result == pos)", "not_a_bracket")
+    c.ens("implies(kind_in(self, pos, ('LBRACKET', 'LBRACE', 'LPARENTHESIS')), result > pos)", "closing_is_later")
+    c.loop(0, invariant=["i > pos"], variant="ntok(self) - i", pure=True)
+    c.mustfail("result == pos", "never_moves")
+    return c
